@@ -304,6 +304,7 @@ type swapConn struct{ inner driver.Conn }
 func (s *swapConn) Get(k string) ([]byte, error) { return s.inner.Get(k) }
 func (s *swapConn) Set(k string, v []byte) error { return s.inner.Set(k, v) }
 func (s *swapConn) Delete(k string) error        { return s.inner.Delete(k) }
+
 type swapConnKL struct{ *swapConn }
 
 func (s *swapConnKL) Keys(p string) ([]string, error) {
